@@ -341,7 +341,85 @@ def _run_attempts(case, faults):
   return outs
 
 
+
+# --------------------------------------------------------------------------
+# cifar100.load_split's own cache file (federated_cifar100_<split>.sqlite).  It is
+# converted, not downloaded or decompressed, so by the wording of C19 it is outside the
+# statement; generate() does not emit this kind.  It is kept runnable so that
+# `./check C19 --replay known_findings_proposed/C19-cifar-replay.json` reproduces the
+# finding described in known_findings_proposed/C19.json.
+
+def _run_cifar(case):
+  import numpy as np
+  from fedjax.datasets import cifar100
+  from fedjax.datasets import downloads as dl
+  from fedjax.core import sqlite_federated_data as sfd
+  split, stop_after, total = case['split'], case['stop_after'], 3
+  base = tempfile.mkdtemp(prefix='C19-cifar-')
+  saved = (dl.maybe_download, dl.maybe_lzma_decompress, dl.validate_file, dl.log, sfd.TFFSQLiteClientsIterator)
+  state = {'fail': True}
+
+  class Clients:
+
+    def __init__(self, *a):
+      self.i = 0
+
+    def __iter__(self):
+      return self
+
+    def __next__(self):
+      if self.i >= total:
+        raise StopIteration
+      if state['fail'] and self.i == stop_after:
+        raise IOError('interrupted while converting (injected)')
+      self.i += 1
+
+      class C:
+
+        def all_examples(self):
+          return {'image': np.zeros((2, 32, 32, 3), np.uint8), 'label': np.zeros(2, np.int64),
+                  'coarse_label': np.zeros(2, np.int64)}
+      return (b'c%d' % self.i, C())
+
+  out = {'calls': []}
+  try:
+    open(os.path.join(base, 'cifar100.sqlite.lzma'), 'wb').close()
+    open(os.path.join(base, 'cifar100.sqlite'), 'wb').close()
+    dl.maybe_download = lambda url, cache_dir=None, **k: os.path.join(cache_dir, 'cifar100.sqlite.lzma')
+    dl.maybe_lzma_decompress = lambda p: p[:-5]
+    dl.validate_file = lambda *a: None   # the TFF file and its digests are not available offline
+    dl.log = lambda *a, **k: None
+    sfd.TFFSQLiteClientsIterator = Clients
+    final = os.path.join(base, f'federated_cifar100_{split}.sqlite')
+    for attempt in range(2):
+      try:
+        fd = cifar100.load_split(split, cache_dir=base)
+        r = {'outcome': 'ret', 'clients': int(fd.num_clients())}
+      except Exception as ex:  # pylint: disable=broad-except
+        r = {'outcome': 'raise:' + type(ex).__name__, 'clients': None}
+      r['final_exists'] = os.path.exists(final)
+      out['calls'].append(r)
+      state['fail'] = False
+  finally:
+    dl.maybe_download, dl.maybe_lzma_decompress, dl.validate_file, dl.log, sfd.TFFSQLiteClientsIterator = saved
+    shutil.rmtree(base, ignore_errors=True)
+  out['total'] = total
+  return out
+
+
+def _oracle_cifar(case, obs):
+  first, second = obs['calls']
+  if first['outcome'] != 'ret' and second['outcome'] == 'ret' and second['clients'] != obs['total']:
+    return [('cifar100-split-sqlite-built-in-place',
+             f'load_split({case["split"]!r}) interrupted after {case["stop_after"]} of {obs["total"]} clients left '
+             f'federated_cifar100_{case["split"]}.sqlite at its final path; the next call reused it without '
+             f'validation and returned {second["clients"]} clients')]
+  return []
+
+
 def run(case):
+  if case['kind'] == 'cifar_split':
+    return _run_cifar(case)
   faults = [list(f) for f in case['attempts']] + [None, ['forbidden']]
   return {'attempts': _run_attempts(case, faults), 'size': case['size']}
 
@@ -349,6 +427,8 @@ def run(case):
 # --------------------------------------------------------------------------
 
 def oracle(case, obs):
+  if case['kind'] == 'cifar_split':
+    return _oracle_cifar(case, obs)
   out = []
   n = case['size']
   kind = case['kind']
@@ -413,6 +493,8 @@ def _optlist(xs):
 
 
 def encode(case, obs):
+  if case['kind'] == 'cifar_split':
+    return None
   att = obs['attempts']
   kind = case['kind']
   good = att[-2]
@@ -498,6 +580,9 @@ def generate(tier, rng):
   full = tier != 'quick'
   sizes = {'download': [0, 1, BS - 1, BS, BS + 1, 2 * BS - 1, 2 * BS, 2 * BS + 1, 3 * BS + 5],
            'decompress': [0, 1, cb - 1, cb, cb + 1, 2 * cb, 3 * cb + 7]}
+  if full:
+    sizes['download'] += [2, BS // 2, 3 * BS - 1, 3 * BS, 4 * BS, 4 * BS + 1] + [rng.randrange(2, 5 * BS) for _ in range(4)]
+    sizes['decompress'] += [2, cb // 2, 2 * cb - 1, 2 * cb + 1, 4 * cb, 5 * cb + 1] + [rng.randrange(2, 8 * cb) for _ in range(4)]
   if tier == 'search':
     for i in range(300):
       kind = rng.choice(['download', 'decompress'])
@@ -517,7 +602,7 @@ def generate(tier, rng):
       for f in singles:
         yield {**case, 'attempts': [f]}
       # repeated interruptions, then success
-      nseq = 12 if full else 5
+      nseq = 40 if full else 5
       for _ in range(nseq):
         depth = rng.randrange(2, 5 if full else 4)
         yield {**case, 'attempts': [rng.choice(singles) for _ in range(depth)]}
@@ -527,10 +612,14 @@ def generate(tier, rng):
 
 
 def nontrivial(case, obs):
+  if case['kind'] == 'cifar_split':
+    return True
   return any(a['outcome'] != 'ret' for a in obs['attempts'])
 
 
 def describe(case, obs):
+  if case['kind'] == 'cifar_split':
+    return {'kind': 'cifar_split'}
   b = BS if case['kind'] == 'download' else 64 * 1024
   n = case['size']
   cls = 'empty' if n == 0 else 'lt-block' if n < b else 'eq-block' if n == b else 'multiple' if n % b == 0 else 'several'
@@ -540,6 +629,8 @@ def describe(case, obs):
 
 
 def shrink(case):
+  if case['kind'] == 'cifar_split':
+    return
   if len(case['attempts']) > 1:
     for j in range(len(case['attempts'])):
       yield {**case, 'attempts': case['attempts'][:j] + case['attempts'][j + 1:]}
